@@ -371,10 +371,10 @@ func (p *ProofD) ChallengeContribution(pk *gabikeys.PublicKey) ([]*big.Int, erro
 				return nil, errors.New("range proof for an attribute that is not hidden in this proof")
 			}
 		}
-		if p.cachedRangeStructures == nil {
-			if err := p.reconstructRangeProofStructures(pk); err != nil {
-				return nil, err
-			}
+		// The structures are extracted from the range proofs as they are now: the proof object may
+		// have been decoded into again, or changed, since an earlier verification filled the cache.
+		if err := p.reconstructRangeProofStructures(pk); err != nil {
+			return nil, err
 		}
 		// need stable attribute order for rangeproof contributions, so determine max undisclosed attribute
 		maxAttribute := 0
